@@ -36,6 +36,7 @@ import LfsModel.LogScan
 import LfsModel.Prune
 import LfsModel.Fsck
 import LfsModel.FsckScan
+import LfsModel.AttrFilter
 import LfsModel.Rewrite
 import LfsModel.Locks
 import LfsModel.PostCommit
@@ -690,6 +691,15 @@ def c13 : List String → String
        let show_ := fun (l : List Nat) => if l.isEmpty then "-" else String.intercalate "," (sortStr (l.eraseDups.map toString))
        (if o.exitOk then "ok" else "fail") ++ " objects=" ++ show_ o.reportedObjects ++ " pointers=" ++ show_ o.reportedPointers ++ " moved=" ++ show_ o.moved
      | _, _ => "bad-op")
+  | ["attr", lines] =>
+    -- the attribute lines seen from one path, in order: three bits each — hit, mentions filter, filter=lfs
+    let ls? : Option (List AttrFilter.Line) := if lines == "-" then some [] else (lines.splitOn ",").mapM fun t =>
+      match t.toList with
+      | [a, b, c] => some ⟨a == '1', b == '1', c == '1'⟩
+      | _ => none
+    (match ls? with
+     | some ls => s!"fsck={if AttrFilter.fsckSays ls then 1 else 0} git={if AttrFilter.gitSays ls then 1 else 0}"
+     | none => "bad-op")
   | ["scan", entries] =>
     -- entries in walk order: `<path>:<blob>:<excluded 0|1>`; answer: the blobs whose pointers are checked
     let es? : Option (List (Nat × Nat × Bool)) := if entries == "-" then some [] else (entries.splitOn ",").mapM fun t =>
